@@ -164,6 +164,115 @@ example := vv_op_verifies_sum (F := ZMod 7) (1 : ZMod 7) Mcnf [1, 2, 1] _ _ 1 _ 
   ((feldman_verify_iff (1 : ZMod 7) hg7 Mcnf [1, 2, 1] [3, 5] 1 _).mpr ⟨rfl, by decide, rfl⟩)
   ((feldman_verify_iff (1 : ZMod 7) hg7 Mcnf [1, 2, 1] [6, 1] 1 _).mpr ⟨rfl, by decide, rfl⟩)
 
+/-! ### Verification data held in a reused object
+
+The library's vector is a mutable object; the property speaks about the verification *data*.  The
+following theorems say what a correct implementation must do after the object was changed in
+place (the `@reuse` lines of the stream, key `stale-state-…`). -/
+
+/-- verification on an object is a function of the value it holds now: two objects with the same
+current value — whatever they were used with before — give the same verdict for every MSP,
+holder and share (definitional in the model; this is the statement the `@reuse` lines test) -/
+theorem verify_depends_only_on_current_value (g : G) (M : Mat F) (labels : List Nat)
+    (o o' : VVObject G) (id : Nat) (s : List F) (h : o.value = o'.value) :
+    feldmanVerifyObject M labels o g id s = feldmanVerifyObject M labels o' g id s := by
+  unfold feldmanVerifyObject; rw [h]
+
+example := verify_depends_only_on_current_value (F := ZMod 7) (1 : ZMod 7) M23 [1, 2, 3]
+  ((VVObject.fresh [3, 5]).update [2, 6]) (VVObject.fresh [2, 6]) 2 [0] rfl
+
+/-- after any sequence of in-place changes the object behaves as a fresh object of its last value -/
+theorem verify_after_update (g : G) (M : Mat F) (labels : List Nat) (o : VVObject G) (V : List G)
+    (id : Nat) (s : List F) :
+    feldmanVerifyObject M labels (o.update V) g id s = feldmanVerify M labels V g id s := rfl
+
+example : feldmanVerifyObject M23 [1, 2, 3] ((VVObject.fresh [(3 : ZMod 7), 5]).update [2, 6])
+    (1 : ZMod 7) 2 [0] = true := by
+  rw [verify_after_update]; decide
+
+/-- the same for Pedersen verification -/
+theorem pedersen_verify_depends_only_on_current_value (g h : G) (M : Mat F) (labels : List Nat)
+    (o o' : VVObject G) (id : Nat) (s b : List F) (hv : o.value = o'.value) :
+    pedersenVerifyObject M labels o g h id s b = pedersenVerifyObject M labels o' g h id s b := by
+  unfold pedersenVerifyObject; rw [hv]
+
+example := pedersen_verify_depends_only_on_current_value (F := ZMod 7) (1 : ZMod 7) (3 : ZMod 7) M23
+  [1, 2, 3] ((VVObject.fresh [3, 5]).update [2, 0]) (VVObject.fresh [2, 0]) 2 [6] [1] rfl
+
+/-- **a used object that is overwritten with another dealer's vector accepts exactly the other
+dealer's shares** (decode into a used object): `feldman_verify_iff` for the updated object -/
+theorem verify_after_update_iff (g : G) (hg : ∀ a : F, a • g = 0 → a = 0) (M : Mat F)
+    (labels : List Nat) (o : VVObject G) (r' : List F) (id : Nat) (s : List F) :
+    feldmanVerifyObject M labels (o.update (liftColumn r' g)) g id s = true ↔
+      numCols M = r'.length ∧ id ∈ labels ∧ s = shareOf M labels r' id := by
+  rw [verify_after_update]; exact feldman_verify_iff g hg M labels r' id s
+
+/-- the object first held dealer `[3,5]`'s vector, then dealer `[6,1]`'s: holder 2's share of the
+second dealing is accepted … -/
+example := (verify_after_update_iff (F := ZMod 7) (1 : ZMod 7) hg7 M23 [1, 2, 3]
+  (VVObject.fresh (liftColumn [3, 5] 1)) [6, 1] 2 _).mpr ⟨rfl, by decide, rfl⟩
+
+/-- … and holder 2's share of the first dealing is not -/
+example : feldmanVerifyObject M23 [1, 2, 3]
+    ((VVObject.fresh (liftColumn [(3 : ZMod 7), 5] (1 : ZMod 7))).update (liftColumn [6, 1] 1)) 1 2
+    (shareOf M23 [1, 2, 3] [3, 5] 2) = false := by decide
+
+/-- **when does a verdict survive a change of the vector?**  A share accepted against `V` is
+accepted against `V'` iff `V'` has the right length and yields the *same* expected lifted share
+for that holder.  (So an implementation answering from a product `M·V` computed before the change
+is right exactly when the holder's part of `M·V'` equals that of `M·V`.) -/
+theorem vv_update_keeps_verdict_iff (g : G) (M : Mat F) (labels : List Nat) (V V' : List G)
+    (id : Nat) (s : List F) (hacc : feldmanVerify M labels V g id s = true) :
+    feldmanVerify M labels V' g id s = true ↔
+      numCols M = V'.length ∧
+        actOnColumn (Vss.pick labels id M) V' = actOnColumn (Vss.pick labels id M) V := by
+  unfold feldmanVerify at hacc ⊢
+  simp only [Bool.and_eq_true, liftedEq_iff, beq_iff_eq] at hacc ⊢
+  obtain ⟨⟨_, h2⟩, h3⟩ := hacc
+  constructor
+  · rintro ⟨⟨h1', _⟩, h3'⟩; exact ⟨h1', h3'.symm.trans h3⟩
+  · rintro ⟨h1', he⟩; exact ⟨⟨h1', h2⟩, h3.trans he.symm⟩
+
+example := (vv_update_keeps_verdict_iff (F := ZMod 7) (1 : ZMod 7) Mcnf [1, 2, 1]
+  (liftColumn [3, 5] 1) (liftColumn [3, 5] 1) 1 _
+  ((feldman_verify_iff (1 : ZMod 7) hg7 Mcnf [1, 2, 1] [3, 5] 1 _).mpr ⟨rfl, by decide, rfl⟩)).mpr
+  ⟨rfl, rfl⟩
+
+/-- **a changed entry changes the verdict**: if entry `k` of the vector is changed by `δ ≠ 0` and
+holder `id` has a row with a non-zero coefficient in column `k`, then no share verifies for `id`
+under both the old and the new vector — an object that still accepts the old share after the
+change is wrong, and so is one that rejects the new dealer's share -/
+theorem vv_update_changes_verdict (g : G) (M : Mat F) (labels : List Nat) (V : List G) (id : Nat)
+    (s : List F) (k : Nat) (δ : G) (hδ : δ ≠ 0) (hk : k < V.length)
+    (hrow : ∃ row ∈ Vss.pick labels id M, row.getD k 0 ≠ 0) :
+    ¬ (feldmanVerify M labels V g id s = true ∧
+        feldmanVerify M labels (V.set k (V.getD k 0 + δ)) g id s = true) := by
+  rintro ⟨h1, h2⟩
+  obtain ⟨row, hr, hne⟩ := hrow
+  exact hne ((feldman_vv_entry g M labels V id s k δ hδ hk h1).mp h2 row hr)
+
+/-- threshold (2,3): every holder depends on entry 1 -/
+example := vv_update_changes_verdict (F := ZMod 7) (1 : ZMod 7) M23 [1, 2, 3] (liftColumn [3, 5] 1) 2
+  (shareOf M23 [1, 2, 3] [3, 5] 2) 1 (1 : ZMod 7) one_ne_zero (by simp [liftColumn])
+  ⟨[1, 2], by decide, by decide⟩
+
+/-- the same at the level of objects: after the in-place change of one entry the object must not
+accept what it accepted before, for every holder depending on that entry -/
+theorem object_entry_update_rejects_old (g : G) (M : Mat F) (labels : List Nat) (o : VVObject G)
+    (id : Nat) (s : List F) (k : Nat) (δ : G) (hδ : δ ≠ 0) (hk : k < o.value.length)
+    (hrow : ∃ row ∈ Vss.pick labels id M, row.getD k 0 ≠ 0)
+    (hacc : feldmanVerifyObject M labels o g id s = true) :
+    feldmanVerifyObject M labels (o.update (o.value.set k (o.value.getD k 0 + δ))) g id s = false := by
+  by_contra hc
+  have hc : feldmanVerifyObject M labels (o.update (o.value.set k (o.value.getD k 0 + δ))) g id s
+      = true := by simpa using hc
+  exact vv_update_changes_verdict g M labels o.value id s k δ hδ hk hrow ⟨hacc, hc⟩
+
+example := object_entry_update_rejects_old (F := ZMod 7) (1 : ZMod 7) M23 [1, 2, 3]
+  (VVObject.fresh (liftColumn [3, 5] 1)) 2 (shareOf M23 [1, 2, 3] [3, 5] 2) 1 (1 : ZMod 7)
+  one_ne_zero (by simp [liftColumn, VVObject.fresh]) ⟨[1, 2], by decide, by decide⟩
+  ((feldman_verify_iff (1 : ZMod 7) hg7 M23 [1, 2, 3] [3, 5] 2 _).mpr ⟨rfl, by decide, rfl⟩)
+
 /-- **reconstruction in the exponent** (abstract linear algebra, instantiated by
 `Vss.reconstructInExponent`): for public shares `Λᵢ = Σₖ Mᵢₖ • Vₖ` and any coefficient vector `c`
 with `c · M = e₀`, `Σᵢ cᵢ • Λᵢ = V₀`; with `V = r • g` this is `r₀ • g`.  Stated over index types,
